@@ -111,6 +111,12 @@ func newTypedArshalers[Coder any](as ...*typedArshalers[Coder]) *typedArshalers[
 	return &a
 }
 
+// hasFromAny reports the fromAny property and is safe to call on a nil list,
+// which is equivalent to an empty list.
+func (a *typedArshalers[Coder]) hasFromAny() bool {
+	return a != nil && a.fromAny
+}
+
 func (a *typedArshalers[Coder]) lookup(fnc func(*Coder, addressableValue, *jsonopts.Struct) error, t reflect.Type) (func(*Coder, addressableValue, *jsonopts.Struct) error, bool) {
 	if a == nil {
 		return fnc, false
